@@ -33,13 +33,47 @@ type World struct {
 	prog *ssa.Program
 	pkg  *ssa.Package
 	db   *ContractDB
+	spec map[Mode]string
+}
+
+var specText = map[Mode]string{}
+
+// loadSpecs reads the specification library: name.smt2 (both encodings),
+// name.bv.smt2, name.int.smt2.
+func loadSpecs(dir string) error {
+	ents, err := os.ReadDir(dir)
+	if err != nil {
+		return err
+	}
+	for _, en := range ents {
+		n := en.Name()
+		if !strings.HasSuffix(n, ".smt2") || strings.HasSuffix(n, ".check.smt2") {
+			continue
+		}
+		data, err := os.ReadFile(dir + "/" + n)
+		if err != nil {
+			return err
+		}
+		switch {
+		case strings.HasSuffix(n, ".bv.smt2"):
+			specText[ModeBV] += string(data)
+		case strings.HasSuffix(n, ".int.smt2"):
+			specText[ModeInt] += string(data)
+		default:
+			specText[ModeBV] += string(data)
+			specText[ModeInt] += string(data)
+		}
+	}
+	return nil
 }
 
 func (w *World) newEng(mode Mode) *Eng {
-	return &Eng{prog: w.prog, pkg: w.pkg, db: w.db, mode: mode, pre: &Prelude{}, heaps: map[string]*heapInfo{},
+	e := &Eng{prog: w.prog, pkg: w.pkg, db: w.db, mode: mode, pre: &Prelude{}, heaps: map[string]*heapInfo{},
 		strConsts: map[string]string{}, globalIDs: map[string]int{}, fieldOrd: map[string]int{}, typeTags: map[string]int{},
 		unmodelled: map[string]bool{}, inlined: map[string]bool{}, usedExterns: map[string]bool{}, usedContracts: map[string]bool{},
 		safetyCounter: map[string]int{}, declared: map[string]bool{}}
+	e.pre.asserts.cur = &e.curOrigin
+	return e
 }
 
 func (w *World) lookupFunc(key string) *ssa.Function {
@@ -177,6 +211,7 @@ func (w *World) verifyFunction(key string, fc *FuncContract, mode Mode) (res *Fu
 	_, rs := f.paramNames(fc, fn, fn.Signature, false)
 	for _, r := range f.rets {
 		e.curPos = r.pos
+		e.curOrigin = r.blk
 		f.curBlock, f.curSt = nil, r.st
 		env := f.env(r.st)
 		for i, v := range r.vals {
@@ -234,8 +269,37 @@ func (w *World) verifyFunction(key string, fc *FuncContract, mode Mode) (res *Fu
 // ---------------------------------------------------------------------------
 // Query construction
 
+// snap records how much of the prelude existed when the obligation was
+// created; its queries use only that prefix.
 func (o *Obligation) snap() {
-	// prelude snapshots are taken lazily: queries use the whole prelude
+	p := o.prelude
+	o.nDecl, o.nAssert, o.nQ, o.nReads = p.decls.Len(), p.asserts.Len(), len(p.qhyps), len(p.readsL)
+	if p.asserts.cur != nil {
+		o.origin = *p.asserts.cur
+	}
+}
+
+// ancestors: blocks that can precede b (back edges ignored), including b.
+func ancestors(b *ssa.BasicBlock) map[*ssa.BasicBlock]bool {
+	if b == nil {
+		return nil
+	}
+	m := map[*ssa.BasicBlock]bool{}
+	var walk func(x *ssa.BasicBlock)
+	walk = func(x *ssa.BasicBlock) {
+		if m[x] {
+			return
+		}
+		m[x] = true
+		for _, p := range x.Preds {
+			if x.Dominates(p) { // back edge p -> x
+				continue
+			}
+			walk(p)
+		}
+	}
+	walk(b)
+	return m
 }
 
 type sexp struct {
@@ -287,9 +351,11 @@ func parseSexps(text string) []*sexp {
 	return out
 }
 
-// selectIndices returns the index terms of element-level selects in text.
-func selectIndices(text string, arrSyms map[string]bool) []string {
-	var res []string
+type readTerm struct{ key, idx string }
+
+// selectIndices returns the (array key, index term) of element-level selects in text.
+func selectIndices(text string, arrSyms map[string]bool, aliases map[string]string) []readTerm {
+	var res []readTerm
 	var walk func(n *sexp)
 	walk = func(n *sexp) {
 		if n.atom != "" {
@@ -298,13 +364,19 @@ func selectIndices(text string, arrSyms map[string]bool) []string {
 		if len(n.kids) == 3 && n.kids[0].atom == "select" {
 			arr := n.kids[1]
 			ok := false
+			key := ""
 			if arr.atom != "" {
 				ok = arrSyms[arr.atom]
+				key = arr.atom
+				if a, has := aliases[key]; has {
+					key = a
+				}
 			} else if len(arr.kids) == 3 && arr.kids[0].atom == "select" {
 				ok = true
+				key = text[arr.kids[2].s:arr.kids[2].e]
 			}
 			if ok {
-				res = append(res, text[n.kids[2].s:n.kids[2].e])
+				res = append(res, readTerm{key, text[n.kids[2].s:n.kids[2].e]})
 			}
 		}
 		for _, k := range n.kids {
@@ -339,10 +411,29 @@ func (o *Obligation) buildQuery(stage string, idxSort string) string {
 	p := o.prelude
 	var b strings.Builder
 	b.WriteString("(set-option :produce-models true)\n(set-logic ALL)\n")
+	b.WriteString(specText[o.Mode])
+	// declarations: all of them (later ones are unused but harmless);
+	// assertions, quantified hypotheses and read terms: only the prefix that
+	// existed when the obligation was created.
 	b.WriteString(p.decls.String())
 	b.WriteString(o.Decls)
-	b.WriteString(p.asserts.String())
-	qs := append(append([]*QHyp{}, p.qhyps...), o.LocalQ...)
+	anc := ancestors(o.origin)
+	rel := func(b *ssa.BasicBlock) bool { return anc == nil || b == nil || anc[b] }
+	var ab strings.Builder
+	for _, r := range p.asserts.recs[:o.nAssert] {
+		if rel(r.origin) {
+			ab.WriteString(r.text)
+		}
+	}
+	asserts := ab.String()
+	b.WriteString(asserts)
+	var qs []*QHyp
+	for _, q := range p.qhyps[:o.nQ] {
+		if rel(q.Origin) {
+			qs = append(qs, q)
+		}
+	}
+	qs = append(qs, o.LocalQ...)
 	tail := "(assert " + o.Reach + ")\n"
 	for _, l := range o.Local {
 		tail += "(assert " + l + ")\n"
@@ -359,33 +450,45 @@ func (o *Obligation) buildQuery(stage string, idxSort string) string {
 			}
 		}
 		cands := map[string]bool{}
-		var candL []string
-		add := func(t string) bool {
-			if strings.Contains(t, "?q") || cands[t] {
+		byKey := map[string][]string{}
+		var order []readTerm
+		add := func(r readTerm) bool {
+			k := r.key + "\x00" + r.idx
+			if strings.Contains(r.idx, "?q") || cands[k] {
 				return false
 			}
-			cands[t] = true
-			candL = append(candL, t)
+			cands[k] = true
+			byKey[r.key] = append(byKey[r.key], r.idx)
+			order = append(order, r)
 			return true
 		}
-		for _, r := range p.readsL {
-			add(r)
-		}
-		for _, t := range selectIndices(tail, arr) {
+		for _, t := range selectIndices(tail, arr, p.aliases) {
 			add(t)
 		}
-		for _, t := range selectIndices(p.asserts.String(), arr) {
+		for _, t := range selectIndices(asserts, arr, p.aliases) {
 			add(t)
 		}
 		seen := map[string]bool{}
 		total := 0
-		start := 0
-		for round := 0; round < 3 && start < len(candL) && total < maxInstances; round++ {
-			end := len(candL)
+		done := map[string]int{} // per key: how many candidates already used
+		for round := 0; round < 4 && total < maxInstances; round++ {
 			var newText strings.Builder
+			snapshot := map[string]int{}
+			for k, v := range byKey {
+				snapshot[k] = len(v)
+			}
+			progress := false
 			for _, q := range qs {
-				for _, off := range q.Offsets {
-					for _, t := range candL[start:end] {
+				for _, ko := range q.Offsets {
+					key, off := "", ko
+					if i := strings.Index(ko, "\x00"); i >= 0 {
+						key, off = ko[:i], ko[i+1:]
+					}
+					if a, has := p.aliases[key]; has {
+						key = a
+					}
+					cl := byKey[key]
+					for _, t := range cl[done[key]:snapshot[key]] {
 						inst := idxSub(t, off, idxSort)
 						txt := imp(and(q.Reach, strings.ReplaceAll(q.Guard, q.Var, inst)), strings.ReplaceAll(q.Body, q.Var, inst))
 						if seen[txt] {
@@ -396,13 +499,19 @@ func (o *Obligation) buildQuery(stage string, idxSort string) string {
 						if total > maxInstances {
 							break
 						}
+						progress = true
 						newText.WriteString("(assert " + txt + ")\n")
 					}
 				}
 			}
+			for k, v := range snapshot {
+				done[k] = v
+			}
 			b.WriteString(newText.String())
-			start = end
-			for _, t := range selectIndices(newText.String(), arr) {
+			if !progress {
+				break
+			}
+			for _, t := range selectIndices(newText.String(), arr, p.aliases) {
 				add(t)
 			}
 		}
@@ -420,7 +529,7 @@ func (o *Obligation) buildQuery(stage string, idxSort string) string {
 }
 
 func (o *Obligation) hasQuant() bool {
-	return len(o.prelude.qhyps)+len(o.LocalQ) > 0
+	return o.nQ+len(o.LocalQ) > 0
 }
 
 type dischargeCfg struct {
